@@ -409,3 +409,26 @@ pub fn predecessor_of_ep(d: &Desc) -> Option<(Desc, String)> {
     let name = |s: usize| format!("{}{}", (b'a' + (s % 8) as u8) as char, (b'1' + (s / 8) as u8) as char);
     Some((p, format!("{}{}", name(org), name(pawn))))
 }
+
+/// castling flags with something wrong (or right) on the king's and the rook's home squares
+pub fn family_rights_defects(out: &mut Vec<Desc>) {
+    for rights in 1..4u8 {
+        for ksq in [4usize, 3, 12] {
+            for a_corner in [b'R', b'.', b'B', b'r', b'q'] {
+                for h_corner in [b'R', b'.', b'N', b'r'] {
+                    let mut d = Desc::empty();
+                    d.pl[ksq] = b'K';
+                    d.pl[0] = a_corner;
+                    d.pl[7] = h_corner;
+                    d.pl[60] = b'k';
+                    d.wr = rights;
+                    out.push(d.clone());
+                    let mut e = d.clone();
+                    e.stm = b'b';
+                    out.push(e);
+                    out.push(d.flipped());
+                }
+            }
+        }
+    }
+}
